@@ -345,6 +345,9 @@ fn connecter_of<'a>(e: &'a EFmt, t: &Term) -> &'a str {
     }
 }
 
+pub fn copula_str<'a>(e: &'a EFmt, t: &Term) -> &'a str {
+    copula_of(e, t)
+}
 fn copula_of<'a>(e: &'a EFmt, t: &Term) -> &'a str {
     let s = &e.statement;
     match t {
@@ -713,7 +716,7 @@ pub fn mutate(s: &str, rng: &mut Rng, pool: &[String]) -> String {
             c.swap(i, i + 1);
             c.into_iter().collect()
         }
-        3 | 4 => ins(rng.below(n + 1), rng.pick(pool)),
+        3 | 4 => ins(rng.below(n + 1), rng.pick::<String>(pool).as_str()),
         5 if n > 0 => chars[..rng.below(n)].iter().collect(),
         6 if n > 1 => {
             // delete a span
@@ -727,7 +730,7 @@ pub fn mutate(s: &str, rng: &mut Rng, pool: &[String]) -> String {
             // replace one char by a keyword
             let i = rng.below(n);
             let mut out: String = chars[..i].iter().collect();
-            out.push_str(rng.pick(pool));
+            out.push_str(rng.pick::<String>(pool).as_str());
             out.extend(chars[i + 1..].iter());
             out
         }
@@ -761,14 +764,14 @@ pub fn stress_inputs(e: &EFmt, rng: &mut Rng, depth: usize) -> Vec<String> {
         for _ in 0..2 {
             let mut s = String::new();
             for _ in 0..d {
-                s.push_str(rng.pick(&openers));
+                s.push_str(rng.pick::<String>(&openers).as_str());
             }
             s.push('a');
             out.push(s.clone());
             // close some of them
             let closers = [c.brackets.1, c.brackets_set_extension.1, c.brackets_set_intension.1, e.statement.brackets.1];
             for _ in 0..rng.below(d + 1) {
-                s.push_str(rng.pick(&closers));
+                s.push_str(*rng.pick::<&str>(&closers));
             }
             out.push(s.clone());
             s.push_str(e.sentence.punctuation_judgement);
